@@ -35,7 +35,7 @@ type Stream struct {
 	// SyncWritePlan scripts the synchronous Write calls like a non-blocking socket: entry n>0 accepts at most n bytes
 	// (a short write), entry 0 reports sonicerrors.ErrWouldBlock with nothing written. Once exhausted everything is accepted.
 	SyncWritePlan []int
-	writes     int
+	writes        int
 
 	parked       []*op
 	parkedReads  int
